@@ -57,6 +57,7 @@ type PodEvictor struct {
 	totalCount                 int
 	nodepodCount               nodePodEvictedCount
 	namespacePodCount          namespacePodEvictCount
+	evictLock                  sync.Mutex // makes limit check, eviction and counting one critical section
 }
 
 func NewPodEvictor(
@@ -102,6 +103,8 @@ func (pe *PodEvictor) TotalEvicted() int {
 // NodeLimitExceeded checks if the number of evictions for a node was exceeded
 func (pe *PodEvictor) NodeLimitExceeded(nodeName string) bool {
 	if pe.maxPodsToEvictPerNode != nil {
+		pe.lock.RLock()
+		defer pe.lock.RUnlock()
 		return pe.nodepodCount[nodeName] == *pe.maxPodsToEvictPerNode
 	}
 	return false
@@ -109,6 +112,8 @@ func (pe *PodEvictor) NodeLimitExceeded(nodeName string) bool {
 
 func (pe *PodEvictor) NamespaceLimitExceeded(namespace string) bool {
 	if pe.maxPodsToEvictPerNamespace != nil {
+		pe.lock.RLock()
+		defer pe.lock.RUnlock()
 		return pe.namespacePodCount[namespace] == *pe.maxPodsToEvictPerNamespace
 	}
 	return false
@@ -116,6 +121,13 @@ func (pe *PodEvictor) NamespaceLimitExceeded(namespace string) bool {
 
 func (pe *PodEvictor) Evict(ctx context.Context, pod *corev1.Pod, opts framework.EvictOptions) bool {
 	framework.FillEvictOptionsFromContext(ctx, &opts)
+
+	if pe.maxPodsToEvictPerNode != nil || pe.maxPodsToEvictPerNamespace != nil {
+		// the limit checks below and the counting after the eviction must not interleave with another Evict,
+		// otherwise concurrent callers all pass the checks before any of them counts and exceed the limits
+		pe.evictLock.Lock()
+		defer pe.evictLock.Unlock()
+	}
 
 	nodeName := pod.Spec.NodeName
 	if pe.NodeLimitExceeded(nodeName) {
